@@ -17,7 +17,7 @@ RootsT == RootsQ \o <<8, 13, 19, 21, 23, 25, 27, 28>>
 Roots == IF Thorough THEN RootsT ELSE RootsQ
 MapsUsed == IF Thorough THEN 1..7 ELSE 1..3
 EqrRoots == IF Thorough THEN <<9, 11, 18, 27>> ELSE <<11, 18>>
-Plain == IF Thorough THEN <<"simplify", "type", "fve", "fvo", "names", "ife">> ELSE <<"simplify", "type", "fve">>
+Plain == IF Thorough THEN <<"simplify", "type", "fve", "fvo", "names", "ife">> ELSE <<"simplify", "type", "fve", "names">>
 RangeOf(s) == {s[i] : i \in DOMAIN s}
 CallSet == {C("substitute", e, m) : e \in RangeOf(Roots), m \in MapsUsed}
            \cup {C(w, e, 0) : w \in RangeOf(Plain), e \in RangeOf(Roots)}
